@@ -29,6 +29,12 @@ def codeOf : Option VId → Nat
 
 def rfTok : R.RFun := fun x => match x with | none => "none" | some v => s!"v{v}"
 def rfRepr : R.RFun := fun x => match x with | none => "None" | some v => s!"r{v}"
+/-- a render function that READS the vertex: the value class of its attribute `a0` (`a-` when it has none) -/
+def rfAttr (w : World) : R.RFun := fun x => match x with
+  | none => "none"
+  | some v => match (w.attrs v).find? (·.1 == 0) with
+    | some p => s!"a{p.2}"
+    | none => "a-"
 def rfDup : R.RFun := fun x => match x with | none => "none" | some v => s!"w{v % 2}"   -- not injective
 def sortKey (k : Nat) : Option VId → Nat := fun x => (codeOf x * (k + 1)) % 7
 
@@ -47,6 +53,14 @@ def pumlOpts : Nat → R.POpts
              | .V => some ⟨"object", false⟩ | .SV => some ⟨"class", true⟩ | _ => none
            lopt := fun c => match c with
              | .D => some ⟨"", ">"⟩ | .U => some ⟨"", ""⟩ | _ => none }
+  | 5 => { vopt := fun c => match c with
+             | .V => some ⟨"object", false⟩ | .MX => some ⟨"entity", true⟩ | _ => none
+           lopt := fun c => match c with
+             | .D => some ⟨"", ">"⟩ | .U => some ⟨"", ""⟩ | _ => none }
+  | 6 => { vopt := fun c => match c with
+             | .V => some ⟨"object", false⟩ | .SV => some ⟨"class", false⟩ | .MX => some ⟨"entity", true⟩ | _ => none
+           lopt := fun c => match c with
+             | .D => some ⟨"", ">"⟩ | .U => some ⟨"", ""⟩ | _ => none }
   | _ => { vopt := fun c => match c with | .V => some ⟨"object", false⟩ | _ => none
            lopt := fun c => match c with
              | .D => some ⟨"", ">"⟩ | .U => some ⟨"", ""⟩ | _ => none }
@@ -63,8 +77,8 @@ structure DState where
 def ssCfg : Sg.SSCfg where
   mapOf := fun c => if c ≤ 2 then 0 else if c = 3 then 1 else 2
   keyOf := fun m a =>
-    if m = 2 then [0, 1, 1, 1, 1, 1, 2, 2, 2].getD a 9      -- len(args) + len(kwargs)
-    else [0, 1, 1, 1, 2, 3, 4, 4, 5].getD a 9               -- ==-class of (args, json(kwargs))
+    if m = 2 then [0, 1, 1, 1, 1, 1, 2, 2, 2, 1].getD a 9      -- len(args) + len(kwargs)
+    else [0, 1, 1, 1, 2, 3, 4, 4, 5, 6].getD a 9               -- ==-class of (args, json(kwargs))
 
 def showOptV : Option VId → String
   | none => "-"
@@ -259,7 +273,7 @@ def step (st : DState) (line : String) : DState × String :=
     match parseId 'V' u, parseOptNat sort with
     | some u, some sort =>
       if !(w.isUni u) then bad else
-      match R.basicRender w filterTable u (if rf == "repr" then rfRepr else if rf == "dup" then rfDup else rfTok) (sort.map sortKey) with
+      match R.basicRender w filterTable u (if rf == "repr" then rfRepr else if rf == "dup" then rfDup else if rf == "attr" then rfAttr w else rfTok) (sort.map sortKey) with
       | .error e => (st, errLine e)
       | .ok none => (st, "ok none")
       | .ok (some str) => (st, "ok " ++ str.replace "\n" "|")
@@ -342,8 +356,9 @@ def step (st : DState) (line : String) : DState × String :=
   | ["tsnew", c, a] =>
     match parseId 'C' c, parseId 'A' a with
     | some c, some a =>
-      let (ts, r) := st.ts.step (.construct c a)
-      ({ st with ts := ts }, match r with | some i => s!"ok T{i}" | none => "ok -")
+      -- argument tuple 9 makes `__init__` raise
+      let (ts, r) := st.ts.step (if a == 9 then .constructFail c a else .construct c a)
+      ({ st with ts := ts }, match r with | some i => s!"ok T{i}" | none => "err ValueError")
     | _, _ => bad
   | ["tsclear", c] =>
     if c == "*" then ({ st with ts := (st.ts.step (.clear none)).1 }, "ok")
@@ -358,11 +373,12 @@ def step (st : DState) (line : String) : DState × String :=
       match (if op == "ssadd" then parseId 'S' x else parseId 'C' x), parseId 'A' a with
       | some x, some a =>
         if op == "ssadd" && x ≥ st.ss.next then bad else
-        let sop : Sg.SSOp := if op == "ssnew" then .construct x a else if op == "ssdrop" then .drop x a
+        let sop : Sg.SSOp := if op == "ssnew" then (if a == 9 then .constructFail x a else .construct x a) else if op == "ssdrop" then .drop x a
           else if op == "sscheck" then .check x a else .addMapping x a
         let (ss, r) := st.ss.step ssCfg sop
         ({ st with ss := ss }, match r with
           | .inst i => s!"ok S{i}" | .none => "ok -" | .ok => "ok" | .keyError => "err KeyError"
+          | .raised => "err ValueError"
           | .bad => "bad-op"
           | .insts l => "ok " ++ showList (fun i => s!"S{i}") l)
       | _, _ => bad
